@@ -1395,8 +1395,8 @@ class BaseLoss(object):
         # locate the target indexes
         index_list = self._getTargetParamIndex()
         if isinstance(state_index, list):
-            for j in state_index:
-                for i in index_list:
+            for i in index_list:
+                for j in state_index:
                     # always ignore the first numState because they are
                     # outputs from the actual ode and not the sensitivities.
                     # Hence the +1
@@ -1406,7 +1406,7 @@ class BaseLoss(object):
             for i in index_list:
                 index_out.append(state_index + (i + 1) * self._num_state)
 
-        return np.sort(np.array(index_out)).tolist()
+        return index_out
 
     def _getTargetParamIndex(self):
         """
@@ -1438,8 +1438,8 @@ class BaseLoss(object):
         n_s = self._num_state
         n_p = self._num_param
         if isinstance(state_index, list):
-            for j in state_index:
-                for i in index_list:
+            for i in index_list:
+                for j in state_index:
                     # always ignore the first numState because they are outputs
                     # from the actual ode and not the sensitivities
                     index_out.append(j + (i + 1 + n_p)*n_s)
@@ -1448,7 +1448,7 @@ class BaseLoss(object):
             for i in index_list:
                 index_out.append(state_index + (i + 1 + n_p)*n_s)
 
-        return np.sort(np.array(index_out)).tolist()
+        return index_out
 
     def _getTargetStateIndex(self):
         """
